@@ -26,10 +26,11 @@ META = {
     'level': 'proof',
     'level_text': 'Proved for every byte string: the model of Decode(src,64) never hits a Go index panic and never exhausts fuel (the table '
                   'program is acyclic with kernel-checked rank certificate), on success 1 <= Len <= min(15,len(src)), every error carries '
-                  'Len <= len(src), a non-zero PCRel is 1, 2 or 4 with 0 < PCRelOff and PCRelOff+PCRel <= Len, a successful decode with a PC-relative field has numeric Opcode != 0 (what fixBlock tests), and the consumer scan loops '
+                  'Len <= len(src), a non-zero PCRel is 1, 2 or 4 with 0 < PCRelOff and PCRelOff+PCRel <= Len, a successful decode with a PC-relative field has numeric Opcode != 0 (what fixBlock tests), the prefix-only pseudo instruction (err=nil, Op=0) always has Len=1, PCRel=0, Opcode=0, the certified table positions are closed under the program edges, and the consumer scan loops '
                   '(ParseIns / GetFuncSize shape) strictly advance and stay in range.  The table and all constants are regenerated from the '
                   'compiled package on every run; the interpreter is tied to the real decoder by the correspondence stream.',
-    'level_note': 'Partial where the property itself is a comparison with another program: "same boundary, opcode and PC-relative field as an '
+    'level_note': 'KNOWN FINDING at HEAD: the clause "exact on compiler-emitted code" is false for VEX-encoded instructions whose opcode the table lacks (fallback to the legacy opcode, e.g. c5 fd 74 c1 -> JE rel8) and for SHA256*/ADCX/ADOX; the text walk judges those against an x/arch-independent length rule and reports them as KNOWN-FINDING (family lists in KNOWN_FINDINGS.jsonl). '
+                  'Partial where the property itself is a comparison with another program: "same boundary, opcode and PC-relative field as an '
                   'independent reference decoder on every instruction the toolchain emits" is differential evidence (every instruction of the '
                   '.text of several Go binaries, hundreds of thousands, zero tolerance), not a theorem.  Trusted: Lean kernel (axioms propext, '
                   'Classical.choice, Quot.sound), the table dumper/generator tools/x86table.py (its certificate is untrusted: re-checked by the '
@@ -509,6 +510,7 @@ def run(tier):
                            '#strdiffer': 'Inst.String() of goom and of the reference differ on a toolchain-emitted instruction: ',
                            '#rulediff': 'the independent length rule and the reference disagree on the boundary of a toolchain-emitted instruction: '}[tag]
                           + line[len(tag) + 1:300], {'kind': kind, 'ops': ['c16.dec ' + h], 'why': line})
+    aux = C.read_indexed(os.path.join(C.BUILD, 'c16.impl.aux'), len(ops))
     refdiff = collections.Counter()
     unexplained = []
     for i, op in enumerate(ops):
@@ -517,10 +519,21 @@ def run(tier):
                 refdiff['known mis-framed toolchain instruction (reference blind or wrong too)'] += 1
                 continue
             fam = None if lanes[i] == 'text' else changed_encoding(op.split()[1])
+            if fam is None and lanes[i] != 'text' and aux[i] and aux[i].startswith('rule '):
+                # the reference is blind (error / prefix-only) and goom's boundary is confirmed by the independent length rule:
+                # goom knows an opcode the reference lacks — not a defect of goom
+                g, r = parse(impl[i]), parse(ref[i])
+                if (r[0] != 'ok' or r[2] == 'Op(0)') and g[0] == 'ok' and g[2] != 'Op(0)' and g[1] == int(aux[i].split()[1]):
+                    fam = 'goom knows more than the reference (boundary confirmed by the independent length rule)'
             if fam is None:
                 unexplained.append(i)
             else:
                 refdiff['newer-table family: ' + fam] += 1
+    strdiff = [i for i in range(len(ops)) if aux[i] and aux[i].startswith('str ') and changed_encoding(ops[i].split()[1]) is None]
+    if not bad:
+        for i in strdiff[:2]:
+            out.violation(f'Inst.String() of goom and of the reference differ on `{ops[i]}` although (err, Len, Op, PCRel, PCRelOff, Opcode) agree: '
+                          + aux[i][4:200], {'kind': 'reference-disagreement', 'ops': [ops[i]], 'impl': impl[i], 'reference': ref[i], 'text': aux[i]})
     if not bad:
         for i in unexplained[:2]:
             out.violation(f'goom and the reference decoder disagree on `{ops[i]}` ({lanes[i]} lane) outside the stated classes',
@@ -575,7 +588,7 @@ def run(tier):
         'distribution': {'lanes': dict(lanec), 'impl_result_classes': dict(errs), 'len_histogram': {str(k): v for k, v in sorted(lens_.items())},
                          'pcrel_width_histogram': {str(k): v for k, v in sorted(pcw.items())}, 'distinct_opcodes_in_stream': len(opnames),
                          'text_walk': estats, 'text_walk_misframed_families': dict(fams), 'text_walk_distinct_opcodes': len(opsd), 'text_walk_instructions_differing_from_reference': text_differ,
-                         'reference_differences_on_synthetic_strings_by_class': dict(refdiff), 'reference_differences_unexplained': len(unexplained),
+                         'reference_differences_on_synthetic_strings_by_class': dict(refdiff), 'reference_differences_unexplained': len(unexplained), 'rendered_text_differences (Inst.String, equal tuples)': len(strdiff),
                          'table': tstats, 'table_coverage': cov_stats, 'consumer_loops (ParseIns scan, GetFuncSize) real vs model': cstats, 'gen_modules_changed_this_run': changed, 'proof_wall_s': round(t_proof, 1)},
         'explanation': 'Agreement with the reference decoder on toolchain-emitted instructions is measured (differential), not proved.',
         'samples': [{'op': ops[i], 'impl': impl[i], 'model': model[i] if model else None, 'ref': ref[i]} for i in pick if i < len(ops)],
